@@ -616,6 +616,11 @@ def triple_ops(spec: dict) -> list[dict]:
         {"op": "make_parameter_dynamic", "name": "k3", "stoichiometries": {"so1": -1.0}}, {"op": "make_parameter_dynamic", "name": "k3", "stoichiometries": {"ghost_rxn": 1.0}},
         {"op": "make_parameter_dynamic", "name": "k3", "stoichiometries": {"v1": 1.0, "ghost_rxn": 1.0}}, {"op": "make_parameter_dynamic", "name": "x"},
         {"op": "make_parameter_dynamic", "name": "kq"},
+        # targets that share the surrogate's place in the name space without being one of its fluxes: the surrogate itself,
+        # an output that drives no variable; alone and after a valid target (a refusal must leave nothing half-done)
+        {"op": "make_parameter_dynamic", "name": "k3", "stoichiometries": {"sur": 1.0}}, {"op": "make_parameter_dynamic", "name": "k3", "stoichiometries": {"so2": -1.0}},
+        {"op": "make_parameter_dynamic", "name": "k3", "stoichiometries": {"v1": 1.0, "sur": 1.0}}, {"op": "make_parameter_dynamic", "name": "k3", "stoichiometries": {"so1": 0.5, "so2": -1.0}},
+        {"op": "make_parameter_dynamic", "name": "k3", "stoichiometries": {"v1": 1.0, "x": 1.0}}, {"op": "make_parameter_dynamic", "name": "k3", "stoichiometries": {"v1": 1.0, "dv": 1.0}},
         {"op": "make_variable_static", "name": "y"}, {"op": "make_variable_static", "name": "y", "value": 0.2}, {"op": "make_variable_static", "name": "z"}, {"op": "make_variable_static", "name": "k1"},
         {"op": "add_parameters", "items": [{"name": "na", "value": 1.0}, {"name": "nb", "value": 2.0}]}, {"op": "add_parameters", "items": [{"name": "x", "value": 1.0}, {"name": "nb", "value": 2.0}]},
         {"op": "update_parameters", "items": [{"name": "k1", "value": 0.6}, {"name": "k2", "value": 0.7}]}, {"op": "update_parameters", "items": [{"name": "ghost", "value": 0.6}, {"name": "k2", "value": 0.7}]},
